@@ -450,6 +450,10 @@ HANDWRITTEN = {
         "Select(EventDataset('ds'), lambda e: (e.EventInfo('EI').runNumber(), e.Jets('A').Count()))",
         "Select(EventDataset('ds'), lambda e: e.Jets('A').Select(lambda j: j.pt() * e.EventInfo('EI').runNumber()))",
         "Select(EventDataset('ds'), lambda e: e.Jets('A').Select(lambda j: DeltaR(j.eta(), j.phi(), 0.5, 1.0)))",
+        # angles on either side of the +-pi seam (the difference in phi is folded into [-pi, pi) whichever object comes first)
+        "Select(EventDataset('ds'), lambda e: e.Jets('A').Select(lambda j: DeltaR(j.eta(), -3.0, 0.5, 3.0)))",
+        "Select(EventDataset('ds'), lambda e: e.Jets('A').Select(lambda j: DeltaR(j.eta(), 3.0, 0.5, -3.0)))",
+        "Select(EventDataset('ds'), lambda e: e.Jets('A').Where(lambda j: DeltaR(j.eta(), -3.1, j.eta(), 3.1) < 0.4).Count())",
         "Select(EventDataset('ds'), lambda e: e.Jets('A').Select(lambda j: e.Tracks('B').Where(lambda t: DeltaR(j.eta(), j.phi(), t.eta(), t.phi()) < 1.5).Count()))",
     ],
 }
@@ -1341,6 +1345,8 @@ def c11_programs(backend):
         ("Select(EventDataset('ds'), lambda e: e.PRIM('A').Select(lambda j: pair(j.pt()).Sum()))", [pair]),
         ("Select(EventDataset('ds'), lambda e: e.PRIM('A').SelectMany(lambda j: pair(j.pt())).Count())", [pair]),
         ("Select(EventDataset('ds'), lambda e: e.PRIM('A').Select(lambda j: DeltaR(j.eta(), j.phi(), 0.5, 1.0)))", []),
+        ("Select(EventDataset('ds'), lambda e: e.PRIM('A').Select(lambda j: DeltaR(j.eta(), -3.0, 0.5, 3.0)))", []),          # across the +-pi seam, both orders
+        ("Select(EventDataset('ds'), lambda e: e.PRIM('A').Select(lambda j: DeltaR(j.eta(), 3.0, 0.5, -3.0)))", []),
         ("Select(EventDataset('ds'), lambda e: e.PRIM('A').Select(lambda j: e.SEC('B').Where(lambda t: DeltaR(j.eta(), j.phi(), t.eta(), t.phi()) < 1.5).Count()))", []),
         ("Select(EventDataset('ds'), lambda e: e.PRIM('A').Select(lambda j: DeltaR(j.phi(), j.eta(), j.eta(), j.phi())))", []),  # actual texts equal other formals' roles
     ]
